@@ -47,7 +47,7 @@ def gen(rng, hazards=()):
         return pin[0]
 
     for i in range(n_lcd):
-        cols = rng.choice([16, 16, 20, 8, 40, 1, 2, rng.randint(1, 40), 3, 5, 7, 15, 19, 9])   # (odd widths: centring splits an odd number of blanks)
+        cols = rng.choice([16, 16, 20, 8, 40, 1, 2, rng.randint(1, 40), 3, 5, 7, 15, 19, 9, 22, 23, 26, 39, 24])   # (odd widths: centring splits an odd number of blanks)
         rows = rng.choice([2, 2, 4, 1, rng.randint(1, 4)])
         i2c = rng.random() < 0.4
         bl = None
@@ -173,10 +173,16 @@ def gen(rng, hazards=()):
             if rng.random() < 0.08:
                 mx = rng.choice([0, -5])                # the host draws an empty bar
             w_eff = cols if width is None else max(1, min(cols, width))
+            if mx > 0 and rng.random() < 0.3:
+                # max_value a multiple of the bar width: EVERY value is an exact number of cells (also where value/max*width
+                # is not exactly representable, e.g. 15/22*22)
+                mx = w_eff * rng.choice([1, 1, 2, 3, 7, 1000])
             if rng.random() < 0.6:
                 # exact fraction: value*width % max == 0
                 cands = [v for v in range(0, mx + 1) if (v * w_eff) % mx == 0] if mx > 0 else [0, 3]
-                val = rng.choice(cands)
+                # exact points whose floating-point quotient is NOT exact (v / max * width lands a hair beside the integer)
+                fragile = [v for v in cands if mx > 0 and (v / mx) * w_eff != (v * w_eff) // mx]
+                val = rng.choice(fragile) if fragile and rng.random() < 0.6 else rng.choice(cands)
             else:
                 val = rng.choice([-5, 0, mx, mx + 10, rng.randint(0, max(1, mx))])
             exact = mx <= 0 or ((max(0, min(val, mx)) * w_eff) % mx == 0)
